@@ -93,6 +93,29 @@ def make_hooks(name, task):
     return Hooks()
 
 
+def signature_tag(cfg, history):
+    """Part of a violation's signature for the configurations with a retained child handle: did the history contain
+    an IDLE buffered context - one that was entered and left (or is still open at the end of the history) without a
+    single operation on the collection in between?  The open finding D18 is exactly that situation; a lost write
+    through a retained child after contexts that were all in use is a different failure and must not hide behind it."""
+    if "childhandle" not in cfg.label:
+        return None
+    stack, idle = [], False
+    for ev in history:
+        t = ev[0]
+        if t in ("enter", "enter_cls"):
+            stack.append([False])
+        elif t in ("exit", "exit_cls"):
+            if stack and not stack.pop()[0]:
+                idle = True
+        elif t in ("op", "nav"):
+            for s_ in stack:
+                s_[0] = True
+    if any(not s_[0] for s_ in stack):
+        idle = True
+    return "idle-ctx" if idle else "busy-ctx"
+
+
 def plan(tier, seed):
     tasks = []
     for fam in env.BUFFERED_FAMILIES:
